@@ -46,6 +46,9 @@ struct VInfo {
     fields: Vec<(Option<String>, Type, bool)>,
     /// `#[cfg(..)]` attributes of the variant
     cfgs: Vec<syn::Attribute>,
+    /// index into ERR_ENUMS and the bare variant name
+    enum_idx: usize,
+    variant: String,
 }
 
 fn type_is_cheap(t: &Type) -> bool {
@@ -86,7 +89,34 @@ struct Xform<'a> {
     tio: bool,
     in_trait_impl: bool,
     file: String,
+    /// variants whose payload is kept under cfg(kani) (destructured somewhere)
+    kept: &'a std::collections::BTreeSet<String>,
     stats: &'a mut Stats,
+}
+
+/// `<place>.clone()` / `.to_owned()` / `.to_string()` / `.to_vec()` where `<place>` is a path,
+/// field access, deref, reference or parenthesised place: evaluating it has no effect other
+/// than producing the value.  As the argument of an *erased* error constructor the value is
+/// only forgotten, so under cfg(kani) it is not evaluated at all (`verif_elide!`).
+fn is_place(e: &Expr) -> bool {
+    match e {
+        Expr::Path(_) => true,
+        Expr::Field(f) => is_place(&f.base),
+        Expr::Paren(p) => is_place(&p.expr),
+        Expr::Reference(r) => is_place(&r.expr),
+        Expr::Unary(u) => matches!(u.op, syn::UnOp::Deref(_)) && is_place(&u.expr),
+        _ => false,
+    }
+}
+fn elidable(e: &Expr) -> bool {
+    if let Expr::MethodCall(m) = e {
+        let n = m.method.to_string();
+        return m.args.is_empty()
+            && m.turbofish.is_none()
+            && matches!(n.as_str(), "clone" | "to_owned" | "to_string" | "to_vec")
+            && is_place(&m.receiver);
+    }
+    false
 }
 
 #[derive(Default, Debug)]
@@ -99,6 +129,7 @@ struct Stats {
     io_uses: usize,
     test_items_dropped: usize,
     files: usize,
+    elided: usize,
 }
 
 fn is_cfg_test(attrs: &[syn::Attribute]) -> bool {
@@ -110,14 +141,34 @@ fn is_cfg_test(attrs: &[syn::Attribute]) -> bool {
     })
 }
 
-fn details_variant(path: &syn::Path) -> Option<String> {
+/// The error enums of error.rs that get a payload-erased twin under cfg(kani):
+/// (enum, module of the generated constructor functions, box non-scalar payloads natively)
+const ERR_ENUMS: &[(&str, &str, bool)] = &[("Details", "mk", true), ("CompatibilityError", "mkc", false)];
+
+/// key of a variant in the variant tables: `V` for `Details`, `Enum::V` for the others
+fn vkey(ei: usize, v: &str) -> String {
+    if ei == 0 {
+        v.to_string()
+    } else {
+        format!("{}::{}", ERR_ENUMS[ei].0, v)
+    }
+}
+fn ctor_mod(ei: usize) -> syn::Ident {
+    syn::Ident::new(ERR_ENUMS[ei].1, proc_macro2::Span::call_site())
+}
+
+/// `..::Details::V` / `..::CompatibilityError::V` -> (enum index, V)
+fn details_variant(path: &syn::Path) -> Option<(usize, String)> {
     let segs: Vec<String> = path.segments.iter().map(|s| s.ident.to_string()).collect();
     let n = segs.len();
-    if n >= 2 && segs[n - 2] == "Details" {
-        Some(segs[n - 1].clone())
-    } else {
-        None
+    if n >= 2 {
+        for (ei, (en, _, _)) in ERR_ENUMS.iter().enumerate() {
+            if segs[n - 2] == *en {
+                return Some((ei, segs[n - 1].clone()));
+            }
+        }
     }
+    None
 }
 
 fn widen(vis: &mut Visibility, stats: &mut Stats) {
@@ -190,11 +241,12 @@ impl<'a> VisitMut for Xform<'a> {
                 i.attrs.push(parse_quote!(#[repr(u8)]));
             }
         }
-        if self.file.ends_with("error.rs") && i.ident == "Details" && !self.variants.is_empty() {
+        let err_enum = ERR_ENUMS.iter().find(|(en, _, _)| i.ident == *en);
+        if let (true, Some((_, _, box_native)), false) = (self.file.ends_with("error.rs"), err_enum, self.variants.is_empty()) {
             i.attrs.push(parse_quote!(#[cfg(not(kani))]));
             for v in i.variants.iter_mut() {
                 for f in v.fields.iter_mut() {
-                    if !type_is_cheap(&f.ty) {
+                    if *box_native && !type_is_cheap(&f.ty) {
                         let t = f.ty.clone();
                         f.ty = parse_quote!(Box<#t>);
                     }
@@ -268,14 +320,22 @@ impl<'a> VisitMut for Xform<'a> {
             Expr::Call(call) => {
                 let mut handled = false;
                 if let Expr::Path(p) = &*call.func {
-                    if let Some(v) = details_variant(&p.path) {
-                        if let Some(VKind::Tuple(boxed)) = self.variants.get(&v) {
+                    if let Some((ei, v)) = details_variant(&p.path) {
+                        let k = vkey(ei, &v);
+                        if let Some(VKind::Tuple(boxed)) = self.variants.get(&k) {
                             if boxed.len() == call.args.len() {
+                                let erased = !self.kept.contains(&k);
                                 for a in call.args.iter_mut() {
                                     self.visit_expr_mut(a);
+                                    if erased && elidable(a) {
+                                        let ex = a.clone();
+                                        *a = parse_quote!(crate::verif_elide!(#ex));
+                                        self.stats.elided += 1;
+                                    }
                                 }
                                 let id = syn::Ident::new(&v, proc_macro2::Span::call_site());
-                                call.func = Box::new(parse_quote!(crate::error::mk::#id));
+                                let m = ctor_mod(ei);
+                                call.func = Box::new(parse_quote!(crate::error::#m::#id));
                                 self.stats.ctor_sites += 1;
                                 handled = true;
                             }
@@ -288,10 +348,11 @@ impl<'a> VisitMut for Xform<'a> {
             }
             Expr::Path(p) => {
                 if p.qself.is_none() {
-                    if let Some(v) = details_variant(&p.path) {
-                        if let Some(VKind::Tuple(_)) = self.variants.get(&v) {
+                    if let Some((ei, v)) = details_variant(&p.path) {
+                        if let Some(VKind::Tuple(_)) = self.variants.get(&vkey(ei, &v)) {
                             let id = syn::Ident::new(&v, proc_macro2::Span::call_site());
-                            *e = parse_quote!(crate::error::mk::#id);
+                            let m = ctor_mod(ei);
+                            *e = parse_quote!(crate::error::#m::#id);
                             self.stats.path_sites += 1;
                             return;
                         }
@@ -300,8 +361,9 @@ impl<'a> VisitMut for Xform<'a> {
                 visit_mut::visit_expr_mut(self, e);
             }
             Expr::Struct(st) => {
-                if let Some(v) = details_variant(&st.path) {
-                    if let (Some(VKind::Struct(_)), Some(info)) = (self.variants.get(&v), self.infos.get(&v)) {
+                if let Some((ei, v)) = details_variant(&st.path) {
+                    let k = vkey(ei, &v);
+                    if let (Some(VKind::Struct(_)), Some(info)) = (self.variants.get(&k), self.infos.get(&k)) {
                         if st.rest.is_none() && st.fields.len() == info.fields.len() {
                             // evaluate the field expressions in *source* order, pass them in declaration order
                             let mut lets: Vec<syn::Stmt> = vec![];
@@ -313,7 +375,12 @@ impl<'a> VisitMut for Xform<'a> {
                                 };
                                 let tmp = syn::Ident::new(&format!("__f_{name}"), proc_macro2::Span::call_site());
                                 let ex = fv.expr.clone();
-                                lets.push(parse_quote!(let #tmp = #ex;));
+                                if !self.kept.contains(&k) && elidable(&ex) {
+                                    lets.push(parse_quote!(let #tmp = crate::verif_elide!(#ex);));
+                                    self.stats.elided += 1;
+                                } else {
+                                    lets.push(parse_quote!(let #tmp = #ex;));
+                                }
                             }
                             let args: Vec<syn::Ident> = info
                                 .fields
@@ -321,7 +388,8 @@ impl<'a> VisitMut for Xform<'a> {
                                 .map(|(n, _, _)| syn::Ident::new(&format!("__f_{}", n.as_ref().unwrap()), proc_macro2::Span::call_site()))
                                 .collect();
                             let id = syn::Ident::new(&v, proc_macro2::Span::call_site());
-                            *e = parse_quote!({ #(#lets)* crate::error::mk::#id(#(#args),*) });
+                            let m = ctor_mod(ei);
+                            *e = parse_quote!({ #(#lets)* crate::error::#m::#id(#(#args),*) });
                             self.stats.struct_sites += 1;
                             return;
                         }
@@ -420,7 +488,9 @@ fn collect_variants(error_rs: &Path) -> (HashMap<String, VKind>, Vec<(String, VI
     let mut infos = Vec::new();
     for it in f.items {
         if let Item::Enum(e) = it {
-            if e.ident == "Details" {
+            if let Some(ei) = ERR_ENUMS.iter().position(|(en, _, _)| e.ident == *en) {
+                let box_native = ERR_ENUMS[ei].2;
+                let type_is_cheap = |t: &Type| !box_native || type_is_cheap(t);
                 for v in e.variants {
                     let cfgs: Vec<syn::Attribute> = v.attrs.iter().filter(|a| a.path().is_ident("cfg")).cloned().collect();
                     let (k, fields) = match &v.fields {
@@ -442,8 +512,8 @@ fn collect_variants(error_rs: &Path) -> (HashMap<String, VKind>, Vec<(String, VI
                                 .collect(),
                         ),
                     };
-                    out.insert(v.ident.to_string(), k.clone());
-                    infos.push((v.ident.to_string(), VInfo { kind: k, fields, cfgs }));
+                    out.insert(vkey(ei, &v.ident.to_string()), k.clone());
+                    infos.push((vkey(ei, &v.ident.to_string()), VInfo { kind: k, fields, cfgs, enum_idx: ei, variant: v.ident.to_string() }));
                 }
             }
         }
@@ -458,14 +528,14 @@ struct PatScan {
 }
 impl<'ast> syn::visit::Visit<'ast> for PatScan {
     fn visit_pat_tuple_struct(&mut self, p: &'ast syn::PatTupleStruct) {
-        if let Some(v) = details_variant(&p.path) {
-            self.kept.insert(v);
+        if let Some((ei, v)) = details_variant(&p.path) {
+            self.kept.insert(vkey(ei, &v));
         }
         syn::visit::visit_pat_tuple_struct(self, p);
     }
     fn visit_pat_struct(&mut self, p: &'ast syn::PatStruct) {
-        if let Some(v) = details_variant(&p.path) {
-            self.kept.insert(v);
+        if let Some((ei, v)) = details_variant(&p.path) {
+            self.kept.insert(vkey(ei, &v));
         }
         syn::visit::visit_pat_struct(self, p);
     }
@@ -477,9 +547,9 @@ impl<'ast> syn::visit::Visit<'ast> for PatScan {
             if let (proc_macro2::TokenTree::Ident(a), proc_macro2::TokenTree::Punct(c1), proc_macro2::TokenTree::Punct(c2), proc_macro2::TokenTree::Ident(v)) =
                 (&toks[i], &toks[i + 1], &toks[i + 2], &toks[i + 3])
             {
-                if a == "Details" && c1.as_char() == ':' && c2.as_char() == ':' {
+                if let (Some(ei), ':', ':') = (ERR_ENUMS.iter().position(|(en, _, _)| a == en), c1.as_char(), c2.as_char()) {
                     if let proc_macro2::TokenTree::Group(_) = &toks[i + 4] {
-                        self.kept.insert(v.to_string());
+                        self.kept.insert(vkey(ei, &v.to_string()));
                     }
                 }
             }
@@ -530,25 +600,30 @@ impl VisitMut for PathFix {
 
 /// error.rs additions: the payload-erased twin of `Details` for cfg(kani) and the constructor
 /// functions `mk::V(..)` every construction site now calls.
-fn append_error_twin(ast: &mut syn::File, infos: &[(String, VInfo)], kept: &std::collections::BTreeSet<String>) {
+fn append_error_twin(ast: &mut syn::File, ei: usize, infos: &[(String, VInfo)], kept: &std::collections::BTreeSet<String>) {
+    let en = syn::Ident::new(ERR_ENUMS[ei].0, proc_macro2::Span::call_site());
+    let modname = ctor_mod(ei);
     // 1. the erased enum = clone of the (already boxed) native enum
     let mut twin: Option<syn::ItemEnum> = None;
     for it in ast.items.iter() {
         if let Item::Enum(e) = it {
-            if e.ident == "Details" {
+            if e.ident == en {
                 twin = Some(e.clone());
             }
         }
     }
-    let mut twin = twin.expect("Details enum not found in error.rs");
+    let mut twin = twin.expect("error enum not found in error.rs");
     twin.attrs.retain(|a| {
         let s = a.to_token_stream().to_string();
         !(s.contains("derive") || s.contains("cfg (not (kani))") || s.contains("cfg(not(kani))"))
     });
     twin.attrs.push(parse_quote!(#[cfg(kani)]));
+    if ei != 0 {
+        twin.attrs.push(parse_quote!(#[derive(PartialEq)]));
+    }
     for v in twin.variants.iter_mut() {
         v.attrs.retain(|a| a.path().is_ident("cfg") || a.path().is_ident("deprecated") || a.path().is_ident("doc"));
-        if kept.contains(&v.ident.to_string()) {
+        if kept.contains(&vkey(ei, &v.ident.to_string())) {
             for f in v.fields.iter_mut() {
                 f.attrs.clear();
             }
@@ -559,7 +634,7 @@ fn append_error_twin(ast: &mut syn::File, infos: &[(String, VInfo)], kept: &std:
     ast.items.push(Item::Enum(twin));
     ast.items.push(parse_quote!(
         #[cfg(kani)]
-        impl std::fmt::Display for Details {
+        impl std::fmt::Display for #en {
             fn fmt(&self, _f: &mut std::fmt::Formatter<'_>) -> std::fmt::Result {
                 Ok(())
             }
@@ -567,15 +642,15 @@ fn append_error_twin(ast: &mut syn::File, infos: &[(String, VInfo)], kept: &std:
     ));
     ast.items.push(parse_quote!(
         #[cfg(kani)]
-        impl std::error::Error for Details {}
+        impl std::error::Error for #en {}
     ));
     // 2. constructor functions
     let mut fns: Vec<syn::ItemFn> = vec![];
     for (name, info) in infos {
-        if info.fields.is_empty() {
+        if info.fields.is_empty() || info.enum_idx != ei {
             continue;
         }
-        let id = syn::Ident::new(name, proc_macro2::Span::call_site());
+        let id = syn::Ident::new(&info.variant, proc_macro2::Span::call_site());
         let args: Vec<syn::Ident> = (0..info.fields.len())
             .map(|i| syn::Ident::new(&format!("a{i}"), proc_macro2::Span::call_site()))
             .collect();
@@ -601,20 +676,20 @@ fn append_error_twin(ast: &mut syn::File, infos: &[(String, VInfo)], kept: &std:
                     .iter()
                     .map(|(n, _, _)| syn::Ident::new(n.as_ref().unwrap(), proc_macro2::Span::call_site()))
                     .collect();
-                parse_quote!(Details::#id { #(#names: #wrapped),* })
+                parse_quote!(#en::#id { #(#names: #wrapped),* })
             }
-            _ => parse_quote!(Details::#id(#(#wrapped),*)),
+            _ => parse_quote!(#en::#id(#(#wrapped),*)),
         };
         let erased: Expr = if kept.contains(name) {
             full.clone()
         } else {
-            parse_quote!({ #(std::mem::forget(#args);)* Details::#id })
+            parse_quote!({ #(std::mem::forget(#args);)* #en::#id })
         };
         let cfgs = &info.cfgs;
         fns.push(parse_quote!(
             #(#cfgs)*
             #[allow(non_snake_case, clippy::too_many_arguments, deprecated)]
-            pub fn #id(#(#args: #tys),*) -> Details {
+            pub fn #id(#(#args: #tys),*) -> #en {
                 #[cfg(not(kani))]
                 {
                     #full
@@ -626,9 +701,38 @@ fn append_error_twin(ast: &mut syn::File, infos: &[(String, VInfo)], kept: &std:
             }
         ));
     }
+    if ei == 0 {
+    ast.items.push(parse_quote!(
+        /// Injected by /verif/shadowgen (T-err): an argument of an erased constructor that is a
+        /// pure copy of a place (`x.clone()`, `x.to_string()`, ..) is not evaluated under cfg(kani).
+        #[cfg(kani)]
+        #[macro_export]
+        macro_rules! verif_elide {
+            ($e:expr) => {
+                $crate::error::verif_absent()
+            };
+        }
+    ));
+    ast.items.push(parse_quote!(
+        #[cfg(not(kani))]
+        #[macro_export]
+        macro_rules! verif_elide {
+            ($e:expr) => {
+                $e
+            };
+        }
+    ));
+    ast.items.push(parse_quote!(
+        /// A value that is never read (it is passed to an erased `mk::V`, which forgets it).
+        #[cfg(kani)]
+        pub fn verif_absent<T>() -> T {
+            unsafe { std::mem::MaybeUninit::<T>::uninit().assume_init() }
+        }
+    ));
+    }
     ast.items.push(parse_quote!(
         /// Injected by /verif/shadowgen (T-err): one constructor per payload-carrying variant.
-        pub mod mk {
+        pub mod #modname {
             #[allow(unused_imports)]
             use super::*;
             #(#fns)*
@@ -714,11 +818,14 @@ fn main() {
             tio,
             in_trait_impl: false,
             file: p.to_string_lossy().to_string(),
+            kept: &kept,
             stats: &mut stats,
         };
         x.visit_file_mut(&mut ast);
         if !no_box && p.ends_with("avro/src/error.rs") {
-            append_error_twin(&mut ast, &info_list, &kept);
+            for ei in 0..ERR_ENUMS.len() {
+                append_error_twin(&mut ast, ei, &info_list, &kept);
+            }
         }
         if tio && p.ends_with("avro/src/lib.rs") {
             ast.items.push(parse_quote!(pub mod vio;));
@@ -733,8 +840,8 @@ fn main() {
         fs::copy(inject_dir.join("vmap.rs"), out.join("avro/src/vmap.rs")).expect("copy vmap.rs");
     }
     println!(
-        "shadowgen: io_paths={} io_uses={}",
-        stats.io_paths, stats.io_uses
+        "shadowgen: io_paths={} io_uses={} elided_ctor_args={}",
+        stats.io_paths, stats.io_uses, stats.elided
     );
     println!(
         "shadowgen: files={} ctor_sites={} path_sites={} struct_sites={} vis_widened={} test_items_dropped={} variants={}",
